@@ -34,7 +34,9 @@ import sys
 import time
 
 ROOT = os.path.dirname(os.path.dirname(os.path.abspath(__file__)))
-LIFE_BIN = os.environ.get("LIFE_BIN", os.path.join(ROOT, ".build/target-life/release/harness-life"))
+sys.path.insert(0, ROOT)
+from vplib import common as _common  # noqa: E402
+LIFE_BIN = os.environ.get("LIFE_BIN", os.path.join(_common.target_dir("life"), "release/harness-life"))
 REPLAY_BIN = os.environ.get("LIFE_REPLAY_BIN", os.path.join(ROOT, ".build/ocaml-life/replay"))
 TRACE_DIR = os.path.join(ROOT, ".build/life-traces")
 MIRI_DIR = os.environ.get("LIFE_MIRI_DIR", os.path.join(ROOT, "harness-life"))
@@ -56,8 +58,8 @@ def build(jobs=6):
     """Build harness-life (hook cfg on) and the OCaml replayer."""
     env = dict(os.environ)
     env.update({"CARGO_NET_OFFLINE": "true", "RUSTFLAGS": "--cfg salsa_rs_salsa_verif",
-                "CARGO_TARGET_DIR": os.path.join(ROOT, ".build/target-life")})
-    hdir = os.path.join(ROOT, "harness-life")
+                "CARGO_TARGET_DIR": _common.target_dir("life")})
+    hdir = _common.crate_dir("harness-life")
     p = subprocess.run(["cargo", "build", "--offline", "--release", f"-j{jobs}"], cwd=hdir, env=env,
                        timeout=2400, stdout=subprocess.PIPE, stderr=subprocess.STDOUT, text=True)
     if p.returncode != 0:
